@@ -47,3 +47,39 @@ Proof. rewrite settle_src_sync_spec by lia. now rewrite Nat.sub_0_r. Qed.
 Theorem settle_async_bridge eng pr m s :
   settle_src settle_cut_async settle_goes_on_async (S (m_max_iter m)) 0 (m_max_iter m) eng pr m s = settle (m_max_iter m) eng pr m s.
 Proof. exact (settle_sync_bridge eng pr m s). Qed.
+
+(* ---------------- the drain loop of the sync engine (_process_event_queue) ---------------- *)
+(* shape checked on every build: re-entrancy guard; while the queue is not empty: count, cut when the count exceeds maxIterations
+   (the queue is cleared), pop, on_event_received hooks, process the event, settle; the cut test is translated *)
+Fixpoint drain_src (cut : machine -> nat -> nat -> bool) (fuel processed limit : nat) (eng : engine) (m : machine) : M :=
+  fun s =>
+    match fuel with
+    | 0 => (s, None)
+    | S f =>
+        match s_queue s with                                                  (* while self._event_queue: *)
+        | [] => (s, None)
+        | ev :: q =>
+            let processed := S processed in                                   (* processed += 1 *)
+            if cut m processed limit then (logo (OCut 0) (with_queue [] s), None)   (* log; clear; break *)
+            else (lift (fun s' => logo (OClock (s_now s')) (logo (OBegin (e_type ev) (e_tag ev)) (with_queue q s'))) ;;   (* popleft; hooks *)
+                  process_event eng true m ev ;;
+                  settle (m_max_iter m) eng true m ;;
+                  drain_src cut f processed limit eng m) s
+        end
+    end.
+
+Lemma drain_src_spec eng m limit : forall fuel p s, p <= limit -> limit - p < fuel ->
+  drain_src drain_cut_sync fuel p limit eng m s = drain (limit - p) eng m s.
+Proof.
+  induction fuel as [|f IH]; intros p s Hle Hf; [lia|]. cbn [drain_src]. destruct (limit - p) as [|n] eqn:E.
+  - cbn [drain]. destruct (s_queue s) as [|ev q]; [reflexivity|]. cbv zeta. unfold drain_cut_sync.
+    destruct (Nat.ltb_spec limit (S p)); [reflexivity | lia].
+  - cbn [drain]. destruct (s_queue s) as [|ev q]; [reflexivity|]. cbv zeta. unfold drain_cut_sync at 1.
+    destruct (Nat.ltb_spec limit (S p)); [lia|].
+    apply bind_ext; [reflexivity|]. intros s1. apply bind_ext; [reflexivity|]. intros s2. apply bind_ext; [reflexivity|]. intros s3.
+    replace n with (limit - S p) by lia. apply IH; lia.
+Qed.
+
+Theorem drain_sync_bridge eng m s :
+  drain_src drain_cut_sync (S (m_max_iter m)) 0 (m_max_iter m) eng m s = drain (m_max_iter m) eng m s.
+Proof. rewrite drain_src_spec by lia. now rewrite Nat.sub_0_r. Qed.
